@@ -1,12 +1,11 @@
 /-
 C09 — the FFT cache (`cache_fft`, `cache_to_*`, Sparse/SeedCoherenceAnalyzer): executable driver of
-the cache model in `CohBase.lean` (instance `Cx`).  The model is the INTENDED behaviour (the cache
-is an optimisation whose contract is equality with the dense Welch path); the places where today's
-code departs from it have `…Current` variants in `CohBase.lean` and counterexample theorems.
+the cache model in `CohBase.lean` (instance `Cx`).  The cache is an optimisation whose contract is
+equality with the dense Welch path (theorems in `Props/C09.lean`).
 
 Line protocol (after the property id):
   cache <what> <NFFT> <noverlap|dcache> <Fs> <win> <scale_by_freq 0/1> <prefer_speed 0/1> <lb> <ub> <ij> <chan0> …
-      what ∈ freqs | coherency | psd | relphase | phase     (answer: `ok <intended> <current> <current-grid-only>`) ;  ij = `i:j;i:j;…`
+      what ∈ freqs | coherency | psd | relphase | phase ;  ij = `i:j;i:j;…`
   seed <NFFT> <noverlap|dcache> <Fs> <win> <sbf> <psm> <lb> <ub> <nseed> <seed chans…> <target chans…>
       nseed = 0 means a 1-d seed (one channel, result squeezed)
   dense <NFFT> <noverlap|dfunc> <Fs> <win> <lb> <ub> <ij> <chan0> …    (coherency through welchBin + coherencySpec,
@@ -29,11 +28,8 @@ def parsePairs? (s : String) : Option (List (Nat × Nat)) :=
     | [a, b] => do pure (← a.toNat?, ← b.toNat?)
     | _ => none
 
-/-- frequency grid of the cache.  Even NFFT: the source's `np.linspace(0, Fs/2, NFFT/2+1)`, evaluated
-    in its own order (bit-exact, so that band edges on the grid fall on the same side); odd NFFT: the
-    true grid k·Fs/NFFT of the dense path (the source's linspace is wrong there — recorded finding). -/
-def cacheFreqs (Fs : Float) (NFFT : Nat) : List Float :=
-  if NFFT % 2 = 0 then getFreqsCurrent Fs NFFT else getFreqs Fs NFFT
+/-- frequency grid of the cache: `utils.get_freqs(Fs, NFFT)` -/
+def cacheFreqs (Fs : Float) (NFFT : Nat) : List Float := getFreqs Fs NFFT
 
 /-- `np.fft.fftfreq(NFFT, 1/Fs)[:numFreqs]` (the dense grid, bit for bit) -/
 def mlabFreqs (Fs : Float) (NFFT : Nat) : List Float :=
@@ -65,18 +61,15 @@ def parseCfg? (sN sO sFs sWin sSbf sPsm sLb sUb : String) (dflt : Nat → Nat) :
   if w.length ≠ NFFT then return .error "err AssertionError"
   return .ok { NFFT, step := NFFT - nov, Fs, w, sbf := sSbf = "1", psm := sPsm = "1", lb, ub }
 
-/-- `cur = false`: intended behaviour; `cur = true`: today's source (frequency grid from
-    `get_freqs`, default overlap ⌈NFFT/2⌉, `Pxx[[0, -1]] /= 2`).  Every line is answered with both,
-    `ok <intended> <current> <current grid only>`: the implementation has to agree with one of them. -/
-def cacheData (curG cur : Bool) (args : List String) : Option String := do
+def cacheData (args : List String) : Option String := do
   match args with
   | what :: sN :: sO :: sFs :: sWin :: sSbf :: sPsm :: sLb :: sUb :: sIj :: chans =>
-    match ← parseCfg? sN sO sFs sWin sSbf sPsm sLb sUb (if cur then cacheDefaultOverlapCurrent else cacheDefaultOverlap) with
+    match ← parseCfg? sN sO sFs sWin sSbf sPsm sLb sUb cacheDefaultOverlap with
     | .error e => return e
     | .ok c =>
     let ij ← parsePairs? sIj
     let X ← parseChans? chans
-    let f := if curG then getFreqsCurrent c.Fs c.NFFT else cacheFreqs c.Fs c.NFFT
+    let f := cacheFreqs c.Fs c.NFFT
     let (l, u) := getBounds f c.lb c.ub
     let nb := u - l
     let nv : Cx := normVal c.w (Cx.ofF c.Fs) c.NFFT c.sbf
@@ -90,9 +83,7 @@ def cacheData (curG cur : Bool) (args : List String) : Option String := do
           (List.range nb).map fun t => cacheCoherency c.psm c.w nv c.NFFT c.step (ch a) (ch b) l t)
     | "psd" =>
         return hdr ++ showRe (chansUsed.flatMap fun a =>
-          (List.range nb).map fun t =>
-            if cur then cachePsdCurrent c.psm c.w nv c.NFFT c.step (ch a) l nb t
-            else cachePsd c.psm c.w nv c.NFFT c.step (ch a) l t)
+          (List.range nb).map fun t => cachePsd c.psm c.w nv c.NFFT c.step (ch a) l t)
     | "relphase" =>
         return hdr ++ showRe (ij.flatMap fun (a, b) =>
           (List.range nb).map fun t => cacheRelPhase c.psm c.w c.NFFT c.step (ch a) (ch b) l t)
@@ -102,21 +93,17 @@ def cacheData (curG cur : Bool) (args : List String) : Option String := do
     | _ => none
   | _ => none
 
-/-- answers: intended; today's source; today's frequency grid with everything else as intended
-    (the state of the tree once the repairs that do not touch `get_freqs` are in) -/
-def both (f : Bool → Bool → Option String) : Option String := do
-  let a ← f false false
-  let b ← f true true
-  let c ← f true false
-  if a.startsWith "err" ∧ a = b then return a
-  return "ok " ++ a ++ " " ++ b ++ " " ++ c
+def okData (f : Option String) : Option String := do
+  let a ← f
+  if a.startsWith "err" then return a
+  return "ok " ++ a
 
-def handleCache (args : List String) : Option String := both fun g cur => cacheData g cur args
+def handleCache (args : List String) : Option String := okData (cacheData args)
 
-def seedData (curG cur : Bool) (args : List String) : Option String := do
+def seedData (args : List String) : Option String := do
   match args with
   | sN :: sO :: sFs :: sWin :: sSbf :: sPsm :: sLb :: sUb :: sNs :: chans =>
-    match ← parseCfg? sN sO sFs sWin sSbf sPsm sLb sUb (if cur then cacheDefaultOverlapCurrent else cacheDefaultOverlap) with
+    match ← parseCfg? sN sO sFs sWin sSbf sPsm sLb sUb cacheDefaultOverlap with
     | .error e => return e
     | .ok c =>
     let ns0 ← sNs.toNat?
@@ -124,7 +111,7 @@ def seedData (curG cur : Bool) (args : List String) : Option String := do
     let X ← parseChans? chans
     let seeds := X.take ns
     let targets := X.drop ns
-    let f := if curG then getFreqsCurrent c.Fs c.NFFT else cacheFreqs c.Fs c.NFFT
+    let f := cacheFreqs c.Fs c.NFFT
     let (l, u) := getBounds f c.lb c.ub
     let nb := u - l
     let nv : Cx := normVal c.w (Cx.ofF c.Fs) c.NFFT c.sbf
@@ -134,7 +121,7 @@ def seedData (curG cur : Bool) (args : List String) : Option String := do
         cacheCoherency c.psm c.w nv c.NFFT c.step sd tg l t)
   | _ => none
 
-def handleSeed (args : List String) : Option String := both fun g cur => seedData g cur args
+def handleSeed (args : List String) : Option String := okData (seedData args)
 
 def handleDense (args : List String) : Option String := do
   match args with
@@ -152,14 +139,14 @@ def handleDense (args : List String) : Option String := do
       (List.range (u - l)).map fun t => coherencySpec (wb a b (l + t)) (wb a a (l + t)) (wb b b (l + t)))
   | _ => none
 
-/-- `grid <Fs> <N>`: the two frequency formulas of the generic model, `ok <k·Fs/N …> <linspace …>` -/
+/-- `grid <Fs> <N>`: the two frequency formulas of the generic model, `ok <k·Fs/N …> <(k·(1/N))·Fs …>` -/
 def handleGrid (args : List String) : Option String := do
   match args with
   | [sFs, sN] =>
     let Fs ← Proto.parseFloat? sFs
     let N ← sN.toNat?
     return "ok " ++ showRe ((List.range (nFreq N)).map fun k => welchFreq (Cx.ofF Fs) N k) ++ " " ++
-      showRe ((List.range (nFreq N)).map fun k => linspaceFreq (Cx.ofF Fs) N k)
+      showRe ((List.range (nFreq N)).map fun k => rfftFreq (Cx.ofF Fs) N k)
   | _ => none
 
 def handle (args : List String) : String :=
